@@ -186,7 +186,8 @@ func ruleTreeMember(c *Ctx) {
 						continue
 					}
 					for _, op := range []ssa.Value{x.X, x.Y} {
-						for v := range backSlice(op) {
+						// also through parameters: `treeCovers(tree, rootPath, docPath)` is handed the root path
+						for v := range sliceUp(buildConc(c), op, f) {
 							if call, ok := v.(*ssa.Call); ok {
 								if cal := call.Call.StaticCallee(); cal != nil && calleeNameIs(cal, "workspace.Workspace).RootJournalPath") {
 									rootCmp = true
